@@ -31,7 +31,8 @@ type Parser struct {
 	Trace     func(on bool)
 	ErrAcc    func() (int, int)
 	SetHooks  func(next func(string, int) (int, int), rec func(int))
-	Push, Pop func() // global form only, nil when the generated parser offers no PushContex/PopContex
+	Boot      func() string // outcome of the parse of the empty input performed while the package was initialised
+	Push, Pop func()        // global form only, nil when the generated parser offers no PushContex/PopContex
 }
 
 var registry = map[string]*Parser{}
@@ -85,6 +86,7 @@ type Job struct {
 	Codes  []int  `json:"codes,omitempty"`  // translate probes
 	Budget int    `json:"budget,omitempty"` // step budget per parse (0: default)
 	Tag    string `json:"tag,omitempty"`    // free, echoed
+	N      int    `json:"n,omitempty"`      // soak: number of re-initialise + parse rounds on one parser / context
 }
 
 type Rec struct {
@@ -112,22 +114,25 @@ type ParseResult struct {
 type JobResult struct {
 	// Diverged >= 0: the parse with this index (within Parses) looped without requesting tokens or running actions until
 	// the watchdog (heap > 400 MB or 4 s in one parse) stopped the driver; later parses of the job were not run
-	Diverged  int             `json:"diverged"`
-	Parser    string          `json:"p"`
-	Kind      string          `json:"k"`
-	Tag       string          `json:"tag,omitempty"`
-	Parses    []ParseResult   `json:"parses,omitempty"` // parses, history (one per parse op)
-	CtxParses [][]ParseResult `json:"ctx_parses,omitempty"`
-	Schedule  []int           `json:"schedule,omitempty"` // interleave: context id per step
-	Matrix    [][]int         `json:"matrix,omitempty"`
-	Trans     []int           `json:"trans,omitempty"`
+	Diverged      int             `json:"diverged"`
+	Parser        string          `json:"p"`
+	Kind          string          `json:"k"`
+	Tag           string          `json:"tag,omitempty"`
+	Parses        []ParseResult   `json:"parses,omitempty"` // parses, history (one per parse op)
+	CtxParses     [][]ParseResult `json:"ctx_parses,omitempty"`
+	Schedule      []int           `json:"schedule,omitempty"` // interleave: context id per step
+	Matrix        [][]int         `json:"matrix,omitempty"`
+	Boot          string          `json:"boot,omitempty"`
+	SoakRounds    int             `json:"soak_rounds,omitempty"`
+	SoakDeviation int             `json:"soak_deviation,omitempty"` // index of the first round whose result differs from round 0 (0: none)
+	Trans         []int           `json:"trans,omitempty"`
 	// TransMissing (TypeScript): the generated file has no function called translate (a private helper)
-	TransMissing bool `json:"trans_missing,omitempty"`
-	Consts    map[string]int  `json:"consts,omitempty"`
-	ConstsErr string          `json:"consts_err,omitempty"` // TypeScript: reading the token constants threw
-	Err       string          `json:"err,omitempty"`
-	ErrCode   int             `json:"err_code"`
-	AccCode   int             `json:"acc_code"`
+	TransMissing bool           `json:"trans_missing,omitempty"`
+	Consts       map[string]int `json:"consts,omitempty"`
+	ConstsErr    string         `json:"consts_err,omitempty"` // TypeScript: reading the token constants threw
+	Err          string         `json:"err,omitempty"`
+	ErrCode      int            `json:"err_code"`
+	AccCode      int            `json:"acc_code"`
 }
 
 // ---------------------------------------------------------------- environment
@@ -465,6 +470,50 @@ func runJob(j *Job) *JobResult {
 				}
 				cur = e
 				r.Parses = append(r.Parses, runParse(p, c, e))
+			}
+		}
+	case "boot":
+		// what a parse of the empty input gave during package initialisation, and what it gives now
+		r.Boot = p.Boot()
+		f := &Feed{PanicAt: -1}
+		e := &env{feed: f, budget: budgetOf(f), parser: p}
+		cur = e
+		r.Parses = append(r.Parses, runParse(p, fresh(p), e))
+	case "soak":
+		// a long-lived parser: the same input parsed N times on one context, re-initialised before every parse (the
+		// contract); every result must equal the first. Only the first round and the first deviating round are reported.
+		c := fresh(p)
+		f := &j.Feeds[0]
+		var first ParseResult
+		var firstJSON []byte
+		r.SoakRounds = 0
+		for i := 0; i < j.N; i++ {
+			if i > 0 {
+				p.Init(c)
+			}
+			e := &env{feed: f, budget: budgetOf(f), parser: p}
+			cur = e
+			pr := runParse(p, c, e)
+			r.SoakRounds++
+			if i == 0 {
+				first = pr
+				firstJSON, _ = json.Marshal(pr)
+				r.Parses = append(r.Parses, first)
+				continue
+			}
+			if pr.Outcome != first.Outcome || pr.Fetched != first.Fetched || len(pr.Recs) != len(first.Recs) || pr.InHash != first.InHash {
+				r.Parses = append(r.Parses, pr)
+				r.SoakDeviation = i
+				break
+			}
+			if i%4096 == 0 || i == j.N-1 {
+				// full comparison (values, every reduction) now and then and at the end
+				b, _ := json.Marshal(pr)
+				if string(b) != string(firstJSON) {
+					r.Parses = append(r.Parses, pr)
+					r.SoakDeviation = i
+					break
+				}
 			}
 		}
 	case "interleave":
